@@ -10,7 +10,7 @@ PROPS = {
     "C04": dict(
         level="exploration",
         technique="model-based stateful property testing (rapid) with harness-owned schedules: requests parked at drawn gates (k8s lookup, cloud call, storage write) for overlap and cancellation; per-pod model of the latest acknowledged ADD as oracle",
-        rule="drawn pool configuration (IPv4 / dual stack, and IPv6-only in 1/6 of the cases as coverage beyond what Config.Validate admits); history of 1..15 (thorough 40) steps over 5 pods x sandbox ids {current, older, never used}: plain ADD/DEL/GET, overlap steps (A parked at gate j, B issued for same/other pod), cancel steps (A cancelled while parked at gate j), pod recreation; non-trivial = the history really parked a request for an overlap or cancel step, or issued a stale-id DEL/GET against a newer ADD; distinct = distinct scenario hash",
+        rule="drawn pool configuration (IPv4 / dual stack, and IPv6-only in 1/6 of the cases as coverage beyond what Config.Validate admits); history of 1..15 (thorough 40) steps over 5 pods x sandbox ids {current, older, never used}: plain ADD/DEL/GET, overlap steps (A parked at gate j, B issued for same/other pod), cancel steps (A cancelled while parked at gate j), race steps (two status queries for one pod released from a spin barrier 20..60 times, every admitted request held at its pod lookup: never two inside), pod recreation; non-trivial = the history really parked a request for an overlap or cancel step, or issued a stale-id DEL/GET against a newer ADD; distinct = distinct scenario hash",
         assumptions=_assume + ["storage write failures and cloud faults are outside the statement's quantifier and are not injected"],
         level_text="every gate index between two external effects of a request is a drawable parking point, so 'B arrives while A is inside the cloud call' and 'cancel between database write and reply' are constructed deterministically; exploration over drawn histories, not exhaustive",
         level_note="a failed repeat of an acknowledged ADD leaves the model 'uncertain' (the statement pins neither outcome); see known finding C04-cancelled-repeat-add-releases-held",
@@ -22,7 +22,7 @@ PROPS = {
 PROPS["C09"] = dict(
     level="exploration",
     technique="property-based testing (rapid) over generated (store, pod table) pairs with classes computed independently of the code; harness-owned schedule for GC-vs-request (request parked inside the service while gcPods starts)",
-    rule="TestVerifC09GC: 1..8 (thorough 14) stored records, each pod in a class {running, sandbox exited, missing from the local list but existing, API lookup failing, absent, absent with sticky IP} x {interface on host, interface no longer attached} x {legacy record}; store insertion order permuted; 1..3 GC passes, optionally with a request parked mid-flight; non-trivial = at least one collectable and one must-survive record, or a record whose interface is missing together with another collectable one. TestVerifC09Kernel: 2..5 pods whose namespace and name are drawn from {a,b,c} (mirrored pairs are common), each with the host-side veth and policy rules the plugin leaves after ADD, in a private network namespace; non-trivial = a mirrored namespace/name pair exists. TestVerifC09Runtime (ipam type crd): 0..6 NodeRuntime entries x {initial, deleted, initial-then-deleted, deleted-then-initial} x {fresh, older than the grace period} x pod {exists, gone, API lookup fails} x {local record, none} x {malformed pod id}; non-trivial = some entries must be reported and some must not, or the record database is empty. TestVerifC09Loop: the real startGarbageCollectionLoop (period scaled to 2 ms through the build overlay) over 1..3 vanished and 0..2 running pods while the first 0..3 passes (and optionally a later one) cannot read the pod list; non-trivial = at least one failing pass. TestVerifC09PodExist (real pkg/k8s object over a fake API server whose resourceVersion=0 reads come from a lagging snapshot): 2..14 (thorough 30) steps of pod create / delete / recreate / move to another node / cache catch-up / PodExist / GetLocalPods; non-trivial = a PodExist query while cache and store disagree about that pod. distinct = distinct scenario hash",
+    rule="TestVerifC09GC: 1..8 (thorough 14) stored records, each pod in a class {running, sandbox exited, missing from the local list but existing, API lookup failing, absent, absent with sticky IP} x {interface on host, interface no longer attached} x {legacy record}; store insertion order permuted; 1..3 GC passes, optionally with a request parked mid-flight; non-trivial = at least one collectable and one must-survive record, or a record whose interface is missing together with another collectable one. TestVerifC09Kernel: 2..5 pods whose namespace and name are drawn from {a,b,c} (mirrored pairs are common), each with the host-side veth and policy rules the plugin leaves after ADD, in a private network namespace; non-trivial = a mirrored namespace/name pair exists. TestVerifC09Runtime (ipam type crd): 0..6 NodeRuntime entries x {initial, deleted, initial-then-deleted, deleted-then-initial} x {fresh, older than the grace period} x pod {exists, gone, API lookup fails} x {local record, none} x {malformed pod id}; non-trivial = some entries must be reported and some must not, or the record database is empty. TestVerifC09Loop: the real startGarbageCollectionLoop (period scaled to 2 ms through the build overlay) over 1..3 vanished and 0..2 running pods while the first 0..3 passes (and optionally a later one) cannot read the pod list; non-trivial = at least one failing pass. TestVerifC09PodExist (real pkg/k8s object over a fake API server whose resourceVersion=0 reads come from a lagging snapshot): 2..14 (thorough 30) steps of pod create / delete / recreate / move to another node / cache catch-up / PodExist / GetLocalPods; (pods may carry the ignore-by-terway label, put on or taken off while they run); non-trivial = a PodExist query while cache and store disagree about that pod, or for a labelled pod. TestVerifC09Starve: 1..5 vanished pods, 0..2 running ones and one vanished pod whose release fails on EVERY pass, sorting before / between / after the others; all others must be collected within 40 passes. distinct = distinct scenario hash",
     assumptions=_assume + ["'interface present on the host' is modelled by the loopback device of a private network namespace (the only netlink.Device available), 'no longer attached' by a MAC no host device carries"],
     level_text="expected survivor set is computed from the pod table alone and compared after every pass: collected within one pass (two for sticky IPs), survivors byte-identical and still owned, third pass idempotent, nothing moves while a request is in flight; kernel state (veth, policy rules) of every pod that must survive is intact after every pass; in crd mode exactly the entries of verified-gone, record-less pods with an old 'initial' status carry a teardown report after one pass and every other entry is unchanged; the loop keeps running after failed passes and collects within two good passes; PodExist answers from the authoritative store, never from the lagging cache",
     level_note="storage write failures are not injected (outside the quantifier)",
@@ -30,6 +30,7 @@ PROPS["C09"] = dict(
            dict(unit="daemon", test="TestVerifC09Kernel", quick=400, thorough=8000, timeout_quick=900),
            dict(unit="daemon", test="TestVerifC09Runtime", quick=1600, thorough=40000, timeout_quick=900),
            dict(unit="daemon", test="TestVerifC09Loop", quick=120, thorough=1200, timeout_quick=900),
+           dict(unit="daemon", test="TestVerifC09Starve", quick=160, thorough=1600, timeout_quick=900),
            dict(unit="c09_k8s", test="TestVerifC09PodExist", quick=8000, thorough=400000),
            dict(unit="daemon", test="TestVerifC09KnownLegacy", quick=1, thorough=1, shards=1)],
 )
@@ -37,7 +38,7 @@ PROPS["C09"] = dict(
 PROPS["C05"] = dict(
     level="fault_enumeration",
     technique="crash-point enumeration over generated request histories (rapid): snapshot of (bolt file, cloud state, acknowledged-request model) at every externally visible effect; a restarted service is rebuilt from each snapshot with the real reload/re-apply code and checked against the model",
-    rule="TestVerifC05Restart: history of 1..10 (thorough 24) ADD / new-sandbox ADD / DEL / balancer-pass steps over 5 pods and a drawn pool configuration; crash points = every cloud call (before/after), every database Put/Delete (before/after) and every reply; quick tier restarts a drawn subset of <= 12 points per history, thorough tier all of them; non-trivial = at least one crash point strictly inside a request (between its first and last effect) or an interface vanished while the daemon was down. TestVerifC05Sticky: 2..14 (thorough 30) ADD / new-sandbox ADD / DEL / restart-from-a-byte-copy steps over 4 pods, two thirds of them with a reserved address (their DEL keeps the stored record); non-trivial = a restart in a history with an acknowledged DEL of such a pod. distinct = distinct scenario hash",
+    rule="TestVerifC05Restart: history of 1..10 (thorough 24) ADD / new-sandbox ADD / DEL / balancer-pass steps over 5 pods and a drawn pool configuration; crash points = every cloud call (before/after), every database Put/Delete (before/after) and every reply; quick tier restarts a drawn subset of <= 12 points per history, thorough tier all of them; non-trivial = at least one crash point strictly inside a request (between its first and last effect) or an interface vanished while the daemon was down; in a quarter of the IPv4 scenarios the stored records of a drawn subset of pods are rewritten into the legacy format (type + <mac>.<ip> id) before every restart. TestVerifC05Sticky: 2..14 (thorough 30) ADD / new-sandbox ADD / DEL / restart-from-a-byte-copy steps over 4 pods, two thirds of them with a reserved address (their DEL keeps the stored record); non-trivial = a restart in a history with an acknowledged DEL of such a pod. distinct = distinct scenario hash",
     assumptions=_assume + ["the ~50 lines of NetworkServiceBuilder.setupENIManager that wire restart (list db, getPodResources, filterENINotFound, NewLocal per attached interface - behind eni.Trunk for the trunk interface in a quarter of the configurations -, NewManager, Manager.Run) are mirrored in the harness because that function needs cloud credentials and the metadata service",
                            "process death inside the service is modelled by discarding all in-memory state at an effect boundary and keeping the bytes of the database file as they are at that instant; in addition a real child process writing a generated Put/Delete stream to a real DiskStorage is SIGKILLed at a drawn instant and the file reopened; power-loss durability (fsync) is not observable and not claimed"],
     level_text="for every explored crash point: acknowledged ADDs keep record+ownership, the in-flight request is followed up as the runtime would (retry or DEL), owners == acknowledged holders exactly (nothing stranded), and filling the node with fresh pods yields exactly capacity - acknowledged allocations and never an acknowledged address; at every quiescent point each stored record's address is owned by that pod in the pool and no address is in two records (so a restart reproduces what the daemon held)",
